@@ -353,6 +353,175 @@ def make_s_register_step(params, part, nparts):
     return h
 
 
+def make_s_subscribe_step(params, part, nparts):
+    """Inductive step for subscribe / unsubscribe on the real BaseAdapterRegistry with symbolic keys.  Pre-state: the
+    arity-1 subscription map holds <=2 leaves under symbolic (required, provided) identities (which may alias the operated
+    key), each a tuple of 1..2 values from {v1, v1b (== v1, distinct), v2}; optionally one arity-2 subscription and/or one
+    arity-0 subscription exist (so pruning a whole arity level must not disturb the others); provided counts = number of
+    subscribed values.  One subscribe / unsubscribe(value) / unsubscribe(None) with a symbolic arity-1 key.  Post:
+    allSubscriptions() is the net-effect multiset in order, subscribed() agrees, the other arity levels are untouched, no
+    empty container is left, counts equal the live values, remove_extendor only without live values, changed() iff changed."""
+    from zope.interface.adapter import BaseAdapterRegistry
+    vals = [M.Val('v1'), M.Val('v1b', 'v1'), M.Val('v2')]
+
+    class StubLookup:
+        def __init__(self, registry):
+            self.log = []
+
+        def changed(self, orig):
+            self.log.append(('changed',))
+
+        def add_extendor(self, p):
+            self.log.append(('add', p))
+
+        def remove_extendor(self, p):
+            self.log.append(('remove', p))
+
+        def __getattr__(self, name):
+            if name.startswith('__'):
+                raise AttributeError(name)
+            return lambda *a, **k: None
+
+    class Reg(BaseAdapterRegistry):
+        _mappingType = AMap
+        _providedType = AMap
+        LookupClass = StubLookup
+
+    R2A, R2B, P2, P0 = SKey(-101), SKey(-102), SKey(-103), SKey(-104)     # keys of the other arity levels (never alias: assumed below)
+
+    def h(nleaf: int, op: int, r0: int, p0: int, a0: int, b0: int, l0: int, r1: int, p1: int, a1: int, b1: int, l1: int,
+          kr: int, kp: int, kv: int, other: int):
+        c_n = pick(nleaf, 3)
+        c_op = pick(op, 3)
+        assume((c_n * 3 + c_op) % nparts == part)
+        c_other = pick(other, 4)           # bit 0: an arity-2 subscription exists; bit 1: an arity-0 subscription exists
+        for x in (r0, p0, r1, p1, kr, kp):
+            assume(x >= 0)
+        leaves = []
+        for (r, p, a, b, ln) in [(r0, p0, a0, b0, l0), (r1, p1, a1, b1, l1)][:c_n]:
+            vs = [vals[pick(a, 3)]]
+            if pick(ln, 2):
+                vs.append(vals[pick(b, 3)])
+            leaves.append((r, p, vs))
+        if c_n == 2:
+            assume(not (leaves[0][0] == leaves[1][0] and leaves[0][1] == leaves[1][1]))
+        reg = Reg()
+        reg._v_lookup.log[:] = []
+
+        def put(level, keys, values):
+            comps = level
+            for k in keys:
+                d = comps.get(k)
+                if d is None:
+                    d = AMap()
+                    comps[k] = d
+                comps = d
+            comps[''] = tuple(values)
+            reg._provided[keys[-1]] = reg._provided.get(keys[-1], 0) + len(values)
+        top = 1 if (c_n or c_other) else 0
+        if c_other & 1:
+            top = 3
+        elif c_n:
+            top = 2
+        for _ in range(top):
+            reg._subscribers.append(AMap())
+        for (r, p, vs) in leaves:
+            put(reg._subscribers[1], [SKey(r), SKey(p)], vs)
+        if c_other & 1:
+            put(reg._subscribers[2], [R2A, R2B, P2], [vals[2]])
+        if c_other & 2:
+            put(reg._subscribers[0], [P0], [vals[0]])
+        kvi = pick(kv, 3)
+        value = vals[kvi]
+        key_r, key_p = SKey(kr), SKey(kp)
+        reached(None, dict(leaves=c_n, op=c_op, other=c_other))
+        model = [(r, p, list(vs)) for (r, p, vs) in leaves]
+
+        def find(r, p):
+            for i, e in enumerate(model):
+                if e[0] == r and e[1] == p:
+                    return i
+            return -1
+        before = [list(e[2]) for e in model]
+        n_before = len(model)
+        i = find(kr, kp)
+        if c_op == 0:
+            reg.subscribe([key_r], key_p, value)
+            if i >= 0:
+                model[i][2].append(value)
+            else:
+                model.append((kr, kp, [value]))
+        else:
+            if c_op == 1:
+                reg.unsubscribe([key_r], key_p, value)
+                if i >= 0:
+                    model[i] = (model[i][0], model[i][1], [v for v in model[i][2] if not (v == value)])
+            else:
+                reg.unsubscribe([key_r], key_p)
+                if i >= 0:
+                    model[i] = (model[i][0], model[i][1], [])
+            if i >= 0 and not model[i][2]:
+                del model[i]
+        after = [list(e[2]) for e in model]
+        changed_state = n_before != len(model) or len(before) != len(after) or any(
+            len(x) != len(y) or any(a is not b for a, b in zip(x, y)) for x, y in zip(before, after))
+        # allSubscriptions(): exactly the live values, per leaf in subscription order
+        listed = list(reg.allSubscriptions())
+        exp_total = sum(len(e[2]) for e in model) + (1 if c_other & 1 else 0) + (1 if c_other & 2 else 0)
+        if len(listed) != exp_total:
+            raise Violation('allSubscriptions() lists %d values, %d are live' % (len(listed), exp_total), signature='C09:kernel:allSubscriptions')
+        for e in model:
+            got = [v for (req, prov, v) in listed if len(req) == 1 and req[0].k == e[0] and prov.k == e[1]]
+            if len(got) != len(e[2]) or any(a is not b for a, b in zip(got, e[2])):
+                raise Violation('allSubscriptions() for a live key lists %r, net effect %r' % (got, e[2]), signature='C09:kernel:allSubscriptions')
+            for v in e[2]:
+                if reg.subscribed([SKey(e[0])], SKey(e[1]), v) is None:
+                    raise Violation('subscribed() does not find a live subscription', signature='C09:kernel:subscribed')
+        cur = find(kr, kp)
+        live_here = model[cur][2] if cur >= 0 else []
+        got = reg.subscribed([key_r], key_p, value)
+        if (got is not None) != any(v == value for v in live_here):
+            raise Violation('subscribed() of the operated key and value returns %r, live values %r' % (got, live_here), signature='C09:kernel:subscribed')
+        # the other arity levels are untouched
+        if c_other & 1 and reg.subscribed([R2A, R2B], P2, vals[2]) is None:
+            raise Violation('an arity-2 subscription was lost by an arity-1 %s' % ('subscribe', 'unsubscribe', 'unsubscribe-all')[c_op],
+                            signature='C09:kernel:frame')
+        if c_other & 2 and reg.subscribed([], P0, vals[0]) is None:
+            raise Violation('an arity-0 subscription was lost by an arity-1 operation', signature='C09:kernel:frame')
+        # pruning
+        subs = reg._subscribers
+        if subs and not subs[-1]:
+            raise Violation('an empty trailing arity map was left', signature='C09:kernel:prune')
+        if len(subs) > 1:
+            for _k1, d1 in subs[1].items():
+                if not d1:
+                    raise Violation('an empty container was left under a required key', signature='C09:kernel:prune')
+                for _k2, d2 in d1.items():
+                    if not d2 or not d2.get(''):
+                        raise Violation('an empty container / empty leaf was left under a provided key', signature='C09:kernel:prune')
+        # counts: one per subscribed value
+        for e in model:
+            n_live = 0
+            for f in model:
+                if f[1] == e[1]:
+                    n_live += len(f[2])
+            if reg._provided.get(SKey(e[1]), 0) != n_live:
+                raise Violation('the reference count of a provided interface is %r with %d live subscriptions' % (
+                    reg._provided.get(SKey(e[1]), 0), n_live), signature='C09:kernel:count')
+        for ev in reg._v_lookup.log:
+            if ev[0] == 'remove' and any(f[1] == ev[1].k for f in model):
+                raise Violation('remove_extendor ran for an interface that still has live subscriptions', signature='C09:kernel:extendor')
+        if cur < 0 and i >= 0 and not any(f[1] == kp for f in model):
+            if not any(ev[0] == 'remove' for ev in reg._v_lookup.log) or reg._provided.get(key_p, 0) != 0:
+                raise Violation('the last subscription of a provided interface was removed but it is still counted / an extendor',
+                                signature='C09:kernel:extendor')
+        n_changed = sum(1 for ev in reg._v_lookup.log if ev[0] == 'changed')
+        if (n_changed > 0) != changed_state:
+            raise Violation('changed() ran %d time(s), the stored subscriptions %s' % (n_changed, 'changed' if changed_state else 'did not change'),
+                            signature='C09:kernel:changed')
+    return h
+
+
 _ENC = ['zope.interface.adapter:BaseAdapterRegistry.register', 'zope.interface.adapter:BaseAdapterRegistry.unregister',
         'zope.interface.adapter:BaseAdapterRegistry._find_leaf', 'zope.interface.adapter:BaseAdapterRegistry.registered',
         'zope.interface.adapter:BaseAdapterRegistry._all_entries', 'zope.interface.adapter:BaseAdapterRegistry.allRegistrations',
@@ -393,6 +562,20 @@ HARNESSES = [
             stubs=['nested dicts and the provided-count dict replaced by ==-matching association lists', 'specification stand-ins with symbolic identity',
                    'recording LookupClass'],
             assumptions=['representation invariant of the pre-state: one value per key, no empty containers, counts >= entries']),
+    Harness('s_subscribe_step', make_s_subscribe_step, kind='S', impls=('py',),
+            tiers=dict(quick=dict(budget_s=150, parts=9, ppt=40, params={}), thorough=dict(budget_s=1500, parts=9, ppt=60, params={})),
+            encoded=['zope.interface.adapter:BaseAdapterRegistry.subscribe', 'zope.interface.adapter:BaseAdapterRegistry.unsubscribe',
+                     'zope.interface.adapter:BaseAdapterRegistry.subscribed', 'zope.interface.adapter:BaseAdapterRegistry.allSubscriptions',
+                     'zope.interface.adapter:BaseAdapterRegistry._find_leaf', 'zope.interface.adapter:BaseAdapterRegistry._all_entries'],
+            bounds='inductive step on the real BaseAdapterRegistry: arbitrary pre-state of <=2 arity-1 leaves under symbolic key identities '
+                   '(aliasing allowed) holding 1..2 values from v1 / v1b (== v1) / v2, with or without one arity-2 and one arity-0 subscription; '
+                   'one subscribe / unsubscribe(value) / unsubscribe(all) with a symbolic arity-1 key',
+            outside='operations at arity other than 1; more than 2 leaves; provided=None handlers (E tier)',
+            oracle='net-effect model: allSubscriptions() per key in order, subscribed(), other arity levels untouched, no empty containers, '
+                   'counts == live values, remove_extendor exactly when the last value goes, changed() iff the stored state changed',
+            stubs=['nested dicts and the provided-count dict replaced by ==-matching association lists', 'specification stand-ins with symbolic identity',
+                   'recording LookupClass'],
+            assumptions=['representation invariant of the pre-state: no empty containers or leaves, counts == subscribed values']),
 ]
 
 MANIFEST = {
